@@ -166,6 +166,30 @@ def gen_retry(rng, tier, timers_only=False):
     return "retry|%d,%d,%d,%d,%d,%d,%d|%s" % (S, tries, timeout, maxt, jmode, flags, t0, ";".join(acts))
 
 
+def gen_pt(rng):
+    S = rng.choice([1, 1, 2, 3])
+    tries = rng.choice([1, 1, 2, 3])
+    timeout = rng.choice([250, 251, 500, 2000, 5000])
+    maxt = rng.choice([0, 0, 1000, 5000])
+    base_ms = min(timeout, maxt) if maxt else timeout
+    t0 = rng.choice([0, 100, 10 ** 9])
+    p_us = t0 * 1000000 + rng.choice([0, 500000, 999999]) + base_ms * 1000 + rng.randint(0, 2000000)
+    n = rng.choice([1, 2, 3, 5, 8, 20, 40])
+    sends = []
+    for _ in range(n):
+        r = rng.random()
+        if sends and r < 0.2:
+            sends.append(rng.choice(sends))                       # equal deadlines
+        elif r < 0.7:
+            # deadline within a few microseconds of the processing instant
+            s = p_us - base_ms * 1000 + rng.choice([0, 0, 1, -1, 2, -2, 1000, -1000, 999999, -999999])
+            sends.append(max(0, s))
+        else:
+            sends.append(max(0, p_us - base_ms * 1000 + rng.randint(-3000000, 3000000)))
+    return "pt|%d,%d,%d,%d|%s|%d,%d" % (S, tries, timeout, maxt, ";".join("%d,%d" % (s // 1000000, s % 1000000) for s in sends),
+                                          p_us // 1000000, p_us % 1000000)
+
+
 def gen_c06(rng, tier, n):
     out = []
     for _ in range(n):
@@ -187,8 +211,10 @@ def gen_c07(rng, tier, n):
             out.append(gen_rem(rng))
         elif r < 0.45:
             out.append(gen_diff(rng))
-        elif r < 0.9:
+        elif r < 0.82:
             out.append(gen_tmo(rng))
+        elif r < 0.92:
+            out.append(gen_pt(rng))
         else:
             out.append(gen_retry(rng, tier, timers_only=True))
     return out
